@@ -65,6 +65,7 @@ func genC08(seed uint64) *Scenario {
 		n = pick(r, []int{3, 6, 12, 30, 60, 100, 300, 600})
 	}
 	churnPM := pick(r, []int{0, 150, 400})
+	numberPM := pick(r, []int{0, 120, 120, 600, 1000}) // swarm: how often numbers reach the validator as json.Number
 	var ops []Op
 	for i := 0; i < n; i++ {
 		var op Op
@@ -79,7 +80,7 @@ func genC08(seed uint64) *Scenario {
 			l := lls[li]
 			switch sc.LL[li].Kind {
 			case "schema":
-				op = Op{Kind: KLLSchema, LL: li, Data: pick(r, l.insts), UseNumber: r.Chance(120), OrderSeed: orderSeedFor(r)}
+				op = Op{Kind: KLLSchema, LL: li, Data: pick(r, l.insts), UseNumber: r.Chance(numberPM), OrderSeed: orderSeedFor(r)}
 			case "param":
 				op = Op{Kind: KLLParam, LL: li, TVal: pick(r, l.tvals), OrderSeed: orderSeedFor(r)}
 			default:
